@@ -82,6 +82,21 @@ def check_space(ctx, sp, periodic, rng, quick, stats):
                               "interpolant of %s data misses its data by %g (tolerance %g) at the interpolation points; space %s map %s" % (
                                   kind, float(np.max(np.abs(back - u))), tolc * umax, sp.key(), (a, h)),
                               {"space": sp.key(), "periodic": periodic, "map": [a, h], "data": u.tolist(), "coeffs": got})
+            # ... and through the public evaluation forms of the interpolant at its interpolation points (point by point, array, in place)
+            try:
+                pts = [float(s.eval(float(x))) for x in xg]
+                arr = [float(v) for v in s.eval(xg.copy())]
+                inp = np.full(len(xg), np.nan)
+                s.eval_vector(xg.copy(), inp)
+                for form, vals in (("point by point", pts), ("array", arr), ("in place", list(inp))):
+                    dv = float(np.max(np.abs(np.array(vals) - u)))
+                    if not dv <= tolc * umax:
+                        ctx.violation({"kind": "data-not-reproduced", "path": sp.kind, "periodic": periodic, "data": kind, "form": form},
+                                      "interpolant of %s data evaluated %s at its interpolation points misses the data by %g; space %s map %s" % (
+                                          kind, form, dv, sp.key(), (a, h)), {"space": sp.key(), "periodic": periodic, "map": [a, h], "data": u.tolist()})
+            except Exception as ex:
+                ctx.violation({"kind": "interpolant-raises", "path": sp.kind, "error": type(ex).__name__, "form": "evaluation"},
+                              "evaluating the interpolant raised %s: %s on %s" % (type(ex).__name__, ex, sp.key()), {"space": sp.key()})
             if c is not None and not np.max(np.abs(np.array(got) - np.array(c))) <= tolc * 10:
                 ctx.violation({"kind": "coefficients", "path": sp.kind, "periodic": periodic},
                               "interpolant of collocation data of coefficients %s returns %s; space %s" % (c, got, sp.key()),
@@ -224,6 +239,12 @@ def run(ctx):
         cand2 = [v for v in pool if v[1] == want[1]]
         for _ in range(8 if quick else 60):
             (s1, p1), (s2, p2) = rng.choice(cand1), rng.choice(cand2)
+            check_2d(ctx, s1, p1, s2, p2, rng, stats)
+        # the uniform-cubic fast path is taken only when BOTH directions are uniform cubic: such pairs are drawn explicitly
+        cu1 = [v for v in cand1 if v[0].kind == "cu"]
+        cu2 = [v for v in cand2 if v[0].kind == "cu"]
+        for _ in range((4 if quick else 30) if cu1 and cu2 else 0):
+            (s1, p1), (s2, p2) = rng.choice(cu1), rng.choice(cu2)
             check_2d(ctx, s1, p1, s2, p2, rng, stats)
             combos += 1
     ctx.extra["spaces_in_table"] = len(spaces)
